@@ -1,0 +1,42 @@
+//go:build verif
+
+package flag
+
+// Contracts for the deductive verification of this package (see /verif/DESIGN.md).
+// This file is comment-only: it is compiled only with the build tag "verif" and adds no code.
+
+//@ func NewFlagKeyValue$1 :: arg -> cfg, ierr, rerr
+//@ props C19
+//@ ensures [same_err] rerr == ierr
+//@ ensures [no_eq_noauto] !hasSep(arg, "=") && !deref(autoBool) ==> cfg == nil && ierr != nil
+//@ ensures [bare_true] !hasSep(arg, "=") && deref(autoBool) && ierr == nil ==> cfg != nil && builtFrom1(cfg, arg, toAny(true), deref(opts))
+//@ ensures [empty_ignored] hasSep(arg, "=") && splitNAt(arg, "=", 1) == "" ==> cfg == nil && ierr == nil && rerr == nil
+//@ ensures [bad_value] hasSep(arg, "=") && splitNAt(arg, "=", 1) != "" && !parseOk(splitNAt(arg, "=", 1)) ==> cfg == nil && ierr != nil
+//@ ensures [key_value] hasSep(arg, "=") && splitNAt(arg, "=", 1) != "" && parseOk(splitNAt(arg, "=", 1)) && ierr == nil ==> cfg != nil && builtFrom1(cfg, splitNAt(arg, "=", 0), parsedVal(splitNAt(arg, "=", 1)), deref(opts))
+//@ ensures [fail_nil] ierr != nil ==> cfg == nil
+
+//@ func (*FlagValue).Set :: v, arg -> err
+//@ props C19
+//@ requires v != nil && v.collector != nil && v.collector.config != nil
+//@ requires !inTree(v.collector.config, v.collector) && !inTree(v.collector.config, v)
+//@ modifies v.collector.err, tree(v.collector.config)
+//@ ensures [reported] err == dyn2(v.loader, error, arg)
+//@ ensures [sticky] old(v.collector.err) != nil ==> v.collector.err == old(v.collector.err)
+//@ ensures [record] old(v.collector.err) == nil && dyn1(v.loader, error, arg) != nil ==> v.collector.err == dyn1(v.loader, error, arg)
+//@ ensures [merged] old(v.collector.err) == nil && dyn1(v.loader, error, arg) == nil && dyn0(v.loader, *ucfg.Config, arg) != nil ==> mergedWith(v.collector.config, toAny(dyn0(v.loader, *ucfg.Config, arg)), old(v.collector.opts))
+//@ ensures [ignored] old(v.collector.err) == nil && dyn1(v.loader, error, arg) == nil && dyn0(v.loader, *ucfg.Config, arg) == nil ==> v.collector.err == nil
+
+//@ func newFlagValue
+//@ props C19
+//@ ensures [fresh] fresh(result)
+//@ ensures [loader] result.loader == loader
+//@ ensures [collector] result.collector != nil && result.collector.opts == opts && result.collector.err == nil
+//@ ensures [cfg] cfg != nil ==> result.collector.config == cfg
+//@ ensures [newcfg] cfg == nil ==> result.collector.config != nil
+
+//@ func NewFlagFiles$1 :: path -> cfg, ierr, rerr
+//@ props C19
+//@ ensures [no_report] rerr == nil
+//@ ensures [by_ext] deref(extensions)[extOf(path)] != nil ==> cfg == dyn0(deref(extensions)[extOf(path)], *ucfg.Config, path, deref(opts)) && ierr == dyn1(deref(extensions)[extOf(path)], error, path, deref(opts))
+//@ ensures [fallback] deref(extensions)[extOf(path)] == nil && deref(extensions)[""] != nil ==> cfg == dyn0(deref(extensions)[""], *ucfg.Config, path, deref(opts)) && ierr == dyn1(deref(extensions)[""], error, path, deref(opts))
+//@ ensures [none] deref(extensions)[extOf(path)] == nil && deref(extensions)[""] == nil ==> cfg == nil && ierr != nil
